@@ -38,6 +38,9 @@ func extraRules(c *Ctx, want map[string]bool) {
 	if want["R08e"] {
 		tornFileProtection(c)
 	}
+	if want["R07g"] {
+		indexedFilesImmutable(c)
+	}
 }
 
 // ---------------------------------------------------------------- R01g
@@ -670,4 +673,70 @@ func tornFileProtection(c *Ctx) {
 			"a "+class+" file is opened and served as it is: a file that a kill left half-written (it already carries its final name and is indexed by its length at the next start) is served as if it were a complete entry", traces[class]...)
 	}
 	R.Check(len(classes) >= 3, "R08e", c.Cfg+"availableOrTryProxy:serve:classes", "", fmt.Sprintf("the serving exits were classified: %v", classes), "fewer than three classes of served entries found")
+}
+
+// ---------------------------------------------------------------- R07g
+
+// indexedFilesImmutable: a read that is already streaming is unaffected by a
+// concurrent overwrite or eviction only because a cache file is never modified
+// once it exists: new content goes to a new file (O_EXCL), old files are only
+// unlinked.  Who-may-call rule over cache/disk and casblob: no os.OpenFile /
+// os.Create / os.WriteFile / os.Rename / os.Truncate / (*os.File).Truncate
+// outside the start-up migration code; tempfile.Create opens with O_EXCL.
+func indexedFilesImmutable(c *Ctx) {
+	R := c.R
+	R.Rule("R07g", "E4 who-may-call", "cache files are immutable once created: cache/disk and casblob never open an existing path for writing, rename over it or truncate it (start-up migration excepted); the only file-creating call is tempfile.Create, which opens with O_CREATE|O_EXCL", 20)
+	forbidden := map[string]bool{"os.OpenFile": true, "os.Create": true, "os.WriteFile": true, "os.Rename": true, "os.Truncate": true, "os.(File).Truncate": true,
+		"os.Link": true, "os.Symlink": true, "ioutil.WriteFile": true, "os.CreateTemp": true}
+	frozen := map[string]string{
+		"disk.migrateDirectory":                "start-up migration of the legacy layouts (before the cache serves requests)",
+		"disk.migrateV1Subdir":                 "start-up migration of the legacy layouts (before the cache serves requests)",
+		"disk.(*diskCache).migrateDirectories": "start-up migration of the legacy layouts (before the cache serves requests)",
+	}
+	n := 0
+	for _, pkg := range []string{"/cache/disk", "/cache/disk/casblob"} {
+		for _, fi := range c.P.FuncsInPkg(pkg) {
+			if strings.HasSuffix(c.P.Fset.Position(fi.Decl.Pos()).Filename, "_test.go") || fi.Decl.Body == nil {
+				continue
+			}
+			if why, ok := frozen[fi.Key]; ok {
+				R.OK("R07g", c.Cfg+fi.Key+":frozen-exception", c.P.Pos(fi.Decl.Pos()), "frozen exception: "+why)
+				continue
+			}
+			n++
+			bad := ""
+			for _, call := range callsIn(fi.Decl.Body, true) {
+				if full := fullCalleeName(fi.Pkg.TypesInfo, call); forbidden[full] {
+					bad = full + " at " + c.P.Pos(call.Pos())
+				}
+			}
+			R.Check(bad == "", "R07g", c.Cfg+fi.Key+":no-in-place-write", c.P.Pos(fi.Decl.Pos()), fi.Key+" does not write to, rename or truncate an existing path",
+				bad+": an existing cache file can be modified while a reader streams it (and a torn state becomes visible under an indexed name)")
+		}
+	}
+	R.Count("functions checked for in-place writes"+c.Cfg, n)
+	if fi := c.P.MustFunc(R, "R07g", "tempfile.(*Creator).Create"); fi != nil {
+		ok := false
+		for _, call := range callsIn(fi.Decl.Body, true) {
+			if fullCalleeName(fi.Pkg.TypesInfo, call) == "os.OpenFile" && len(call.Args) == 3 {
+				if tv, k := fi.Pkg.TypesInfo.Types[call.Args[1]]; k && tv.Value != nil {
+					if v, k := constantInt(tv.Value.ExactString()); k {
+						ok = v&int64(osOEXCL) != 0 && v&int64(osOCREATE) != 0
+					}
+				}
+			}
+		}
+		R.Check(ok, "R07g", c.Cfg+"tempfile.(*Creator).Create:exclusive", c.P.Pos(fi.Decl.Pos()), "new files are opened with O_CREATE|O_EXCL (never an existing file)", "tempfile.Create can open an existing file for writing")
+	}
+}
+
+const (
+	osOCREATE = 0x40 // linux
+	osOEXCL   = 0x80 // linux
+)
+
+func constantInt(s string) (int64, bool) {
+	var v int64
+	_, err := fmt.Sscan(s, &v)
+	return v, err == nil
 }
